@@ -18,7 +18,7 @@ func init() {
 		Technique: "static analysis: byte-layout table extraction from encoder and decoder compared with each other and a frozen Cloak-v2 table, argument-identity checks of the cipher wiring, conditional constant propagation of MakeObfuscator per method, affine bounds with cancellation for the length byte and the size limit",
 		Decided: "(c) the encoder's and the decoder's header tables are identical to the frozen v2 layout (stream id BE32 @0, seq BE64 @4, closing @12, extra length @13, header 14 bytes, payload at 14) — this is what catches a change applied symmetrically to both sides; " +
 			"(a) the structural facts that imply the round trip: both sides derive the AEAD nonce from header[:NonceSize] of the plaintext header, seal/open the same region with no AAD, key the header cipher with the session key and the last 8 bytes as nonce, in mirrored order (seal before header encryption, header decryption before parsing and opening); the method→(cipher, key slice) table equals the v2 table; " +
-			"(b) padding+tag fits the one-byte length field for every padding draw and the encoded length is at most payload+269, the per-frame maximum is limit−269, and every encoder call site passes a payload no longer than that maximum; (d) the two buffer-placement modes agree with their call sites; the empty payload is refused first.",
+			"(b) padding+tag fits the one-byte length field for every padding draw and the encoded length is at most payload+269, the per-frame maximum is limit−269, and every encoder call site passes a payload no longer than that maximum; the decoder releases exactly in[14 : len(in) − header[13]] on every path; (d) the two buffer-placement modes agree with their call sites; the empty payload is refused first.",
 		NotDecided: "the equality decode(encode(f)) = f as a value; correctness of AES-GCM/ChaCha20-Poly1305/Salsa20 (library); quality of randomness.",
 		Assumptions: []string{"AEAD.Overhead()=16 and NonceSize()=12 for the three constructors of MakeObfuscator", "common.RandInt(n) ∈ [0,n-1]", "io.Reader.Read returns n <= len(p)"},
 	})
@@ -31,6 +31,7 @@ func runC04(c *Ctx) {
 	c04R4(c, "C04.R4")
 	c04R5(c, "C04.R5")
 	c04R6(c, "C04.R6")
+	c04R7(c, "C04.R7")
 }
 
 type layoutEntry struct {
